@@ -37,6 +37,12 @@ def k_lnk_100(p, i, prev): os.symlink('c' * (90 + i % 30), p)        # 90..119 b
 def k_hard(p, i, prev):
     if prev: os.link(prev, p)
     else: open(p, 'wb').write(b'nolink')
+def k_xf(p, i, prev):
+    # a small file whose user attribute has a value of 40 + i bytes: a run of these entries walks the in-inode attribute area from "fits easily" through
+    # "exactly full" to "goes to the block"
+    open(p, 'wb').write(b'xf%d' % i)
+    try: os.setxattr(p, 'user.a', b'0123456789abcdef' * 8 if False else bytes((48 + (k % 10)) for k in range(40 + i)))
+    except OSError: pass
 def k_chr(p, i, prev): os.mknod(p, 0o600 | stat.S_IFCHR, os.makedev(1, 3))
 def k_blk(p, i, prev): os.mknod(p, 0o660 | stat.S_IFBLK, os.makedev(259, 70000))
 def k_fifo(p, i, prev): os.mkfifo(p, 0o644)
@@ -45,7 +51,8 @@ def k_dir(p, i, prev):
     os.mkdir(p); open(os.path.join(p, 'in'), 'wb').write(pat(700, i)); os.mkdir(os.path.join(p, 'sub')); os.symlink('../in', os.path.join(p, 'sub', 'up'))
 KINDS = [('empty', k_empty), ('one', k_1), ('bsm1', k_bsm1), ('bs', k_bs), ('b12', k_12), ('p3', k_4k3), ('hs', k_hole_start), ('hm', k_hole_mid), ('he', k_hole_end), ('zb', k_zero_block),
          ('far', k_far), ('ls', k_lnk_short), ('l59', k_lnk_59), ('l60', k_lnk_60), ('ll', k_lnk_long), ('l100', k_lnk_100), ('hard', k_hard), ('chr', k_chr), ('blk', k_blk), ('fifo', k_fifo), ('sock', k_sock), ('dir', k_dir)]
-KD = dict(KINDS)
+KINDS_EXTRA = [('xf', k_xf)]
+KD = dict(KINDS + KINDS_EXTRA)
 VARIANTS = [('m4755', lambda p: os.chmod(p, 0o4755)), ('m1777', lambda p: os.chmod(p, 0o1777)), ('m0000', lambda p: os.chmod(p, 0)), ('u1000', lambda p: os.lchown(p, 1000, 1000)),
             ('u70000', lambda p: os.lchown(p, 70000, 66000)), ('t0', lambda p: os.utime(p, (0, 0), follow_symlinks=False)), ('t1', lambda p: os.utime(p, (1, 1), follow_symlinks=False)),
             ('tmax', lambda p: os.utime(p, (2 ** 31 - 1, 2 ** 31 - 1), follow_symlinks=False)), ('xattr', lambda p: os.setxattr(p, 'user.k', b'v' * 40, follow_symlinks=False))]
@@ -97,7 +104,10 @@ def walk(root):
             xs = {n: os.getxattr(path, n, follow_symlinks=False) for n in os.listxattr(path, follow_symlinks=False) if n.startswith('user.')}
         except OSError:
             xs = {}
-        if xs: e['xattrs'] = {k: v.decode('latin1') for k, v in xs.items()}
+        if xs:
+            import hashlib as _h
+            e['xattrs_raw'] = {k: v.decode('latin1') for k, v in xs.items()}
+            e['xattrs'] = {k: (_h.sha256(v).hexdigest()[:16] if len(v) > 64 else v.decode('latin1')) for k, v in xs.items()}       # same normal form as xck.tree (long values by digest)
         if not stat.S_ISDIR(st.st_mode): inos.setdefault(st.st_ino, []).append(rel)
         e['_path'] = path
         out[rel] = e
@@ -203,7 +213,7 @@ def dbg_script(root, ref):
             cmds += ['sif %s mode 0%o' % (p, e['type'] | e['mode'])]
         cmds += ['sif %s uid %d' % (p, e['uid']), 'sif %s gid %d' % (p, e['gid']), 'sif %s mtime @%d' % (p, e['mtime'])]
         if e['type'] == stat.S_IFREG: cmds += ['sif %s mode 0%o' % (p, e['type'] | e['mode'])]
-        for k, v in e.get('xattrs', {}).items(): cmds.append('ea_set %s %s %s' % (p, k, v))
+        for k, v in e.get('xattrs_raw', {}).items(): cmds.append('ea_set %s %s %s' % (p, k, v))
     # hard-linked files: debugfs ln does not touch the link count
     for p, e in ref.items():
         if 'linkgroup' in e and e['type'] not in (stat.S_IFDIR, stat.S_IFLNK): cmds.append('sif %s links_count %d' % (p, e['nlink']))
@@ -314,6 +324,9 @@ def main(tier, only=None):
             for N in range(1, 49):
                 if quick and k not in ('one', 'l100', 'dir') and N % 3: continue
                 jobs.append(('fan/%s/%sx%d' % (feat, k, N), [(k, None)] * N, feat, N % 4 == 0 and k != 'hard', N % 8 == 0))       # debugfs ln does not expand a full directory: no script builder for many hard links
+    # attribute fill levels: 80 files whose user.a value is 40..119 bytes long (and, on 128-byte inodes, lands in a block each)
+    for feat in feats:
+        jobs.append(('xfill/%s/user.a-40..119' % feat, [('xf', None)] * 80, feat, True, True))
     for fi, feat in enumerate(feats):
         for ti, t in enumerate(trees):
             if quick and len(t) == 2 and fi == 1 and ti % 3: continue
